@@ -2,10 +2,10 @@
 CLAIMS = {
     'C28': dict(engine='pyvc (E1) + rtc (E3)', category='proof',
                 technique='contract-based deductive verification: AST->VC->z3 with representation invariant, ghost witness field and frame conditions; run-time contracts as bounded stand-in',
-                text='setocc, __imul__, reorder and __sane__ are proved, for all supercell sizes / species counts / list contents, to preserve the '
+                text='setocc, fillperiodic (with its site selection abstracted), __imul__, reorder and __sane__ are proved, for all supercell sizes / species counts / list contents, to preserve the '
                      'representation invariant relating occ and chemorder, to accept exactly the declared species, and (reorder) to raise ValueError exactly '
                      'when a map is not a permutation (pigeonhole lemmas proved by induction); hence every history of these edits preserves the invariant. '
-                     'fillperiodic, __setitem__, __mul__, copy, POSCAR and POSCAR_occ (incl. the POSCAR text round trip) are outside the encoder subset and only '
+                     '__setitem__, __mul__, copy, POSCAR and POSCAR_occ (incl. the POSCAR text round trip) and the site selection of fillperiodic are outside the encoder subset and only '
                      'checked at run time over bounded histories (labelled B, not counted as proved).',
                 note='Assumes the encoder model of CPython list/array primitives, mathematical integers, no aliasing between inner lists; z3/cvc5 trusted. '
                      'Functions outside the encoder subset are reported undecided, never passed.'),
